@@ -12,6 +12,7 @@ mod spec;
 
 mod c01;
 mod c02;
+mod c03;
 mod c05;
 
 use runner::Tier;
@@ -20,6 +21,7 @@ fn dispatch_replay(prop: &str, w: &serde_json::Value) -> Vec<(String, String)> {
     match prop {
         "C01" => c01::replay(w),
         "C02" => c02::replay(w),
+        "C03" => c03::replay(w),
         "C05" => c05::replay(w),
         _ => vec![],
     }
@@ -59,6 +61,7 @@ fn main() {
     let code = match args[1].as_str() {
         "C01" => c01::run(tier),
         "C02" => c02::run(tier),
+        "C03" => c03::run(tier),
         "C05" => c05::run(tier),
         other => {
             eprintln!("unknown property {}", other);
